@@ -1,7 +1,7 @@
 """C09: free text from the spec never becomes code.  GoLex.tla is model-checked; its counterexamples
 for the unescaped (context, escaper) pairs are the break-out payloads; every free-text site of a rich
 document is made hostile, one at a time; the real generator runs; erased ASTs are compared."""
-import os, json, shutil, copy, random, concurrent.futures
+import re, os, json, shutil, copy, random, concurrent.futures
 from common import *
 
 ASSUME = [
@@ -141,6 +141,43 @@ def _start(run, drv, base, i):
                                  dict(id=1, method="GET", path="/swagger.json", rawQuery="", headers={}, full=True)], "e%d" % i)
 
 
+def run_generated_main(run, mod, base, i):
+    """build and start the generated server program, fetch /swagger.json from it; None if it panics while starting"""
+    import subprocess, urllib.request, time as _t, select
+    out = run.path("bin", "main-e%d" % i)
+    b = run.sh(["go", "build", "-o", out, "./cmd/verif-server"], cwd=mod, check=False, timeout=1800)
+    if b.returncode != 0:
+        raise Infra("the generated main program does not build (a C01 matter): " + b.stderr[-1500:])
+    p = subprocess.Popen([out, "--scheme", "http", "--host", "127.0.0.1", "--port", "0"], cwd=mod, stdout=subprocess.DEVNULL, stderr=subprocess.PIPE, text=True)
+    try:
+        buf, t0, url = "", _t.time(), None
+        while _t.time() - t0 < 60:
+            if select.select([p.stderr], [], [], 0.5)[0]:
+                line = p.stderr.readline()
+                if not line:
+                    break
+                buf += line
+                m = re.search(r"Serving \S+ at (http://127\.0\.0\.1:\d+)", line)
+                if m:
+                    url = m.group(1); break
+            elif p.poll() is not None:
+                break
+        if url is None:
+            if "panic:" in buf or "invalid reference" in buf or "cannot" in buf.lower():
+                return None
+            raise Infra("the generated main program did not announce its address: " + buf[-1500:])
+        last = None
+        for pth in (base + "/swagger.json", "/swagger.json"):
+            try:
+                with urllib.request.urlopen(url + pth, timeout=20) as r:
+                    return r.read()
+            except Exception as e:
+                last = e
+        raise Infra("GET /swagger.json from the generated main program: %s" % last)
+    finally:
+        p.kill(); p.wait()
+
+
 def check_c10(run):
     from server_family import build_server, run_driver
     vh = run.build_vh()
@@ -194,7 +231,7 @@ def check_c10(run):
                 os.remove(jp)
         drv, err = build_server(run, "e%d" % i, sp, extra_flags=flags[c["mode"]])
         ev = dict(ev="Embedded", case=c, built=bool(drv), started=bool(drv), err=err[-400:] if not drv else "")
-        blank = dict(input="-", orig="-", served="-", inputPaths="-", flatPaths="-", inputSecurity="-", flatSecurity="-", missingDefs=0)
+        blank = dict(input="-", orig="-", served="-", inputPaths="-", flatPaths="-", inputSecurity="-", flatSecurity="-", missingDefs=0, mainRun=False, mainStarted=False, mainServed="-")
         if not drv:
             ev.update(blank)
             ev["refused"] = err.startswith("generate")
@@ -219,6 +256,15 @@ def check_c10(run):
         ev["missing"] = cmp_.get("missing", [])
         ev["servedStatus"] = ok[0]["status"] if ok else resp[0]["status"]
         ev["expandErr"] = cmp_.get("expandErr", "")
+        # the generated MAIN program (cmd/<name>-server): how it loads the two embedded documents is generated code too
+        ev["mainRun"], ev["mainStarted"], ev["mainServed"] = False, False, "-"
+        if c["content"] == "plain":
+            ms = run_generated_main(run, os.path.join(run.work, "srv-e%d" % i), base, i)
+            ev["mainRun"], ev["mainStarted"] = True, ms is not None
+            if ms is not None:
+                mp = run.path("mainserved-%d.json" % i); open(mp, "wb").write(ms)
+                ev["mainServed"] = json.loads(run.sh([vh, "embed-compare", "-input", sp, "-orig", run.path("orig-%d.b64" % i),
+                                                      "-flat", run.path("flat-%d.b64" % i), "-served", mp]).stdout).get("served", "-")
         shutil.rmtree(os.path.join(run.work, "srv-e%d" % i), ignore_errors=True)
         return ev
 
